@@ -362,13 +362,115 @@ class Crate:
         return None
 
 
+BASELINE_FILE = os.path.join(os.path.dirname(os.path.abspath(__file__)), 'baseline_items.json')
+
+
+def fn_sig(f):
+    return json.dumps([f.get('dk'), f.get('inputs'), f.get('output'), bool(f.get('impl_self')), f.get('impl_trait')], sort_keys=True)
+
+
+def adt_sig(a):
+    vs = []
+    for v in a.get('variants', []):
+        # a struct's single variant carries the struct's own name: not part of its shape
+        vs.append([v.get('name') if a.get('kind') != 'struct' else '', [[x.get('name'), x.get('ty')] for x in v.get('fields', [])]])
+    return json.dumps([a.get('kind'), vs], sort_keys=True)
+
+
+def rename_aliases(raw, kinds=('fns', 'adts')):
+    """Renamed / moved private items: an item of the reference inventory (baseline_items.json, taken from the tree the
+    rules were written against) that is missing here, and exactly one *new* item with the same signature (fns: kind,
+    parameter and return types; types: kind, variant and field names and types) -> treat the new one as the old one.
+    Returns {new path: reference path}.  Rules keep naming things by their reference names; a rename is not a change."""
+    try:
+        base = json.load(open(BASELINE_FILE))
+    except (OSError, ValueError):
+        return {}
+    alias = {}
+    for key, d in raw.items():
+        b = base.get(key)
+        if not b:
+            continue
+        for kind, items, sigf in (('fns', d['fns'], fn_sig), ('adts', d['adts'], adt_sig)):
+            if kind not in kinds:
+                continue
+            cur_paths = {x['path'] for x in items}
+            ref = b.get(kind, {})
+            missing = {p: sg for p, sg in ref.items() if p not in cur_paths and '{closure' not in p}
+            fresh = {}
+            for x in items:
+                if x['path'] not in ref and '{closure' not in x['path'] and not x.get('from_macro'):
+                    fresh.setdefault(sigf(x), []).append(x['path'])
+            by_sig = {}
+            for p, sg in missing.items():
+                by_sig.setdefault(sg, []).append(p)
+            for sg, olds in by_sig.items():
+                news = fresh.get(sg, [])
+                if len(olds) == 1 and len(set(news)) == 1:
+                    alias[news[0]] = olds[0]
+    return alias
+
+
+def apply_aliases(obj, alias, _keys=('path', 'resolved', 'fn', 'adt', 'impl_self', 'impl_trait', 'ty', 'aty', 'output', 'kind', 'gargs')):
+    """rewrite every path-like string of the facts (definitions, callees, types, MIR names) through the alias map"""
+    pairs = sorted(alias.items(), key=lambda kv: -len(kv[0]))
+
+    def fix(s):
+        for new, old in pairs:
+            if new in s:
+                # whole-path occurrences only (followed by end, `::`, `<`, `>`, `,`, space, `)` ...)
+                out = []
+                i = 0
+                while True:
+                    j = s.find(new, i)
+                    if j < 0:
+                        out.append(s[i:])
+                        break
+                    e = j + len(new)
+                    before_ok = j == 0 or not (s[j - 1].isalnum() or s[j - 1] == '_')
+                    after_ok = e == len(s) or not (s[e].isalnum() or s[e] == '_')
+                    out.append(s[i:j])
+                    out.append(old if (before_ok and after_ok) else new)
+                    i = e
+                s = ''.join(out)
+        return s
+    stack = [obj]
+    while stack:
+        o = stack.pop()
+        if isinstance(o, dict):
+            for k, v in o.items():
+                if isinstance(v, str):
+                    if len(v) > 8 and '::' in v:
+                        o[k] = fix(v)
+                elif isinstance(v, (dict, list)):
+                    stack.append(v)
+        elif isinstance(o, list):
+            for i, v in enumerate(o):
+                if isinstance(v, str):
+                    if len(v) > 8 and '::' in v:
+                        o[i] = fix(v)
+                elif isinstance(v, (dict, list)):
+                    stack.append(v)
+
+
 class Program:
     def __init__(self, facts_dir):
         self.dir = facts_dir
         self.crates = {}
+        raw = {}
         for fname, key in EXPECTED.items():
             with open(os.path.join(facts_dir, fname)) as fh:
-                self.crates[key] = Crate(key, json.load(fh))
+                raw[key] = json.load(fh)
+        # types first (function signatures mention them), then functions
+        self.aliases = {}
+        for kinds in (('adts',), ('fns',)):
+            al = rename_aliases(raw, kinds)
+            if al:
+                self.aliases.update(al)
+                for d in raw.values():
+                    apply_aliases(d, al)
+        for key, d in raw.items():
+            self.crates[key] = Crate(key, d)
         # call index: callee path -> [(fn, call node)]
         self.calls = {}
         self.calls_norm = {}
@@ -398,7 +500,7 @@ class Program:
                             if r.get('k') == 'field' and r.get('adt'):
                                 self.field_writes.setdefault((r['adt'], r['name']), []).append((fn, n))
                                 self.field_writes_norm.setdefault((norm_path(r['adt']), r['name']), []).append((fn, n))
-                    elif k == 'struct':
+                    elif k == 'struct' and all('e' in x for x in n.get('fields', [])):
                         self.aggregates.setdefault(n.get('adt', '?'), []).append((fn, n))
                         self.aggregates_norm.setdefault(norm_path(n.get('adt', '?')), []).append((fn, n))
 
